@@ -88,6 +88,21 @@ Theorem C03_min_packet :
 Proof. exact min_packet_16. Qed.
 Print Assumptions C03_min_packet.
 
+(* what holds instead when the length field is excluded (EtM / AEAD): 4 + at least one block.  With an
+   8-byte block cipher (3des-cbc + an -etm MAC) a packet can therefore be 12 bytes, below the 16 of
+   RFC 4253 section 6 -- the same framing OpenSSH uses; see C03_example_short_etm *)
+Theorem C03_min_packet_etm :
+  forall md len, 0 < m_bs md -> 0 <= len -> m_etm md || m_aead md = true ->
+    4 + m_bs md <= packet_len md len.
+Proof. exact min_packet_excl. Qed.
+Print Assumptions C03_min_packet_etm.
+
+Theorem C03_min_packet_suite :
+  forall c m len, In c c03_cipher_table -> In m c03_mac_table -> 0 <= len ->
+    (if ci_aead c || ma_etm m then 4 + ci_bs c else 16) <= packet_len (negotiated c m) len.
+Proof. exact min_packet_suite. Qed.
+Print Assumptions C03_min_packet_suite.
+
 (* byte level: what send_message writes.  The cipher, AEAD, HMAC and os.urandom are library primitives;
    their length behaviour is the explicit premise (checked against the real engines by the harness) *)
 Theorem C03_wire_layout :
@@ -111,22 +126,44 @@ Theorem C03_wire_layout :
 Proof. exact send_wire_layout. Qed.
 Print Assumptions C03_wire_layout.
 
+(* send_message as a whole: the message type byte is read first (no packet for an empty message), the
+   compressor -- a library primitive, any function -- runs before framing, and every framing statement
+   holds for the COMPRESSED data, whatever its length *)
+Theorem C03_send_message :
+  forall (E : engines) (digest atag : Z),
+    (forall x, length (e_cipher E x) = length x) ->
+    (forall x a, Z.of_nat (length (e_aead E x a)) = Z.of_nat (length x) + atag) ->
+    (forall x, Z.of_nat (length (e_hmac E x)) = digest) ->
+    (forall n, 0 <= n -> Z.of_nat (length (e_rnd E n)) = n) ->
+    forall (comp : option (list Z -> list Z)) md seq payload wire,
+      0 < m_bs md -> 0 <= m_mac md ->
+      send_message E comp md seq payload = Ok wire ->
+      payload <> [] /\
+      let data := match comp with Some f => f payload | None => payload end in
+      let len := Z.of_nat (length data) in
+      Z.of_nat (length wire) = 4 + length_field md len + tag_len md digest atag /\
+      Z.of_nat (length wire) = wire_len md digest atag len /\
+      (m_enc md = false \/ m_etm md || m_aead md = true ->
+         firstn 4 wire = be_encode 4 (length_field md len) /\
+         be_decode (firstn 4 wire) = length_field md len) /\
+      (m_enc md = false ->
+         exists pad, wire = be_encode 4 (length_field md len) ++ [padding md len] ++ data ++ pad /\
+                     Z.of_nat (length pad) = padding md len).
+Proof. exact send_message_layout. Qed.
+Print Assumptions C03_send_message.
+
+Theorem C03_empty_message :
+  forall E comp md seq, send_message E comp md seq [] = Raise IndexErr.
+Proof. exact send_message_empty. Qed.
+Print Assumptions C03_empty_message.
+
 (* non-vacuity: the tables are not empty, a concrete suite is in them, and a concrete packet is built *)
 Example C03_example_tables :
-  tables_ok = true /\ (exists c, In c c03_cipher_table /\ ci_aead c = true) /\
-  (exists c, In c c03_cipher_table /\ ci_aead c = false) /\
-  (exists m, In m c03_mac_table /\ ma_etm m = true) /\ (exists m, In m c03_mac_table /\ ma_etm m = false).
+  tables_ok = true /\ exists c m, In c c03_cipher_table /\ In m c03_mac_table.
 Proof.
   split; [exact tables_ok_true|].
-  repeat split;
-    match goal with
-    | |- exists c : c03_cipher, _ /\ ci_aead c = ?b =>
-        let r := eval vm_compute in (find (fun c => Bool.eqb (ci_aead c) b) c03_cipher_table) in
-        match r with Some ?c => exists c; split; [vm_compute; tauto | reflexivity] end
-    | |- exists m : c03_mac, _ /\ ma_etm m = ?b =>
-        let r := eval vm_compute in (find (fun m => Bool.eqb (ma_etm m) b) c03_mac_table) in
-        match r with Some ?m => exists m; split; [vm_compute; tauto | reflexivity] end
-    end.
+  exists (hd default_cipher c03_cipher_table), (hd default_mac c03_mac_table).
+  split; vm_compute; left; reflexivity.
 Qed.
 
 Example C03_example_wire :
@@ -134,3 +171,13 @@ Example C03_example_wire :
     send_wire toy_engines (mk_mode true true false false 16 12) 3 [5; 1; 2; 3; 4; 5; 6] = Ok wire /\
     length wire = (4 + 16 + 12)%nat /\ firstn 5 wire = [0; 0; 0; 16; 82].
 Proof. eexists. split; [vm_compute; reflexivity|]. split; reflexivity. Qed.
+
+(* EtM over an 8-byte block cipher: a one-byte message gives a 12-byte packet *)
+Example C03_example_short_etm : packet_len (mk_mode true true false false 8 32) 1 = 12.
+Proof. reflexivity. Qed.
+
+Example C03_example_compressed :
+  exists wire,
+    send_message toy_engines (Some (fun x => 120 :: x ++ x)) (mk_mode true false false false 16 12) 3
+                 [5; 1; 2] = Ok wire /\ length wire = (16 + 12)%nat.
+Proof. eexists. split; [vm_compute; reflexivity|]. reflexivity. Qed.
